@@ -19,7 +19,8 @@ LEVEL_TEXT = "all interleavings with <= 2 preemptions of two read-modify-write o
 RULE = (
     "API level: 2-3 threads each retrieve_stage -> modify (unique tag in context and outputs, optionally a task status) "
     "-> save through store.store_stage (plain, optionally with expected_phase) or store.transaction()+txn.store_stage, "
-    "with or without retry on fresh data; every schedule with <= 2 preemptions for two writers, seeded random schedules "
+    "with or without retry on fresh data, or a transaction that fails AFTER its store_stage succeeded and is retried with "
+    "the same in-memory object (what execute_atomic does on a lock error); every schedule with <= 2 preemptions for two writers, seeded random schedules "
     "for three. Recorded history: (writer, attempt, version read, outcome, version after). Oracles: <= 1 success per "
     "base version; final version = initial + successes; the final row holds the tag of EVERY successful writer; every "
     "loser raised ConcurrencyError; nothing of a failed save ever becomes durable (if it left its implicit transaction "
@@ -28,10 +29,15 @@ RULE = (
     "Non-trivial = schedule where both writers read before either wrote (same base version); distinct = trace hash."
 )
 ASSUMPTIONS = ["SQLite backend, busy timeout 0 under the cooperative scheduler", "statement-level interleavings"]
-MIN_OBS = {"same_base_version_races": {"quick": 300, "thorough": 5000}, "conflicts_raised": {"quick": 300, "thorough": 5000}}
+MIN_OBS = {"same_base_version_races": {"quick": 300, "thorough": 5000}, "conflicts_raised": {"quick": 300, "thorough": 5000}, "rolled_back_after_successful_store": {"quick": 100, "thorough": 1500}}
 TIMEOUT = {"quick": 800, "thorough": 3400}
 
-MODES = ["plain", "plain_phase", "txn", "txn_phase", "plain_task", "txn_task"]
+MODES = ["plain", "plain_phase", "txn", "txn_phase", "plain_task", "txn_task", "txn_fault"]
+
+
+class _Fault(Exception):
+    """Injected failure after txn.store_stage inside the same transaction (what a lock error at the
+    following push_message is to TransactionHelper.execute_atomic, which retries with the SAME object)."""
 
 
 def gen_cases(tier: str, seed: int) -> list[dict]:
@@ -73,6 +79,47 @@ def _base_db() -> tuple[str, str]:
 def _writer(w, sid: str, i: int, mode: str, retry: bool, hist: list, tag_prefix: str = "w"):
     from stabilize.errors import ConcurrencyError
     from stabilize.models.status import WorkflowStatus
+
+    def fault_body() -> None:
+        # txn.store_stage succeeds, the transaction then fails and rolls back; the caller retries with the
+        # SAME in-memory object (no re-read), as execute_atomic's lock-error retry does
+        store = w.store
+        stage = store.retrieve_stage(sid)
+        v0 = stage.version
+        tag = f"{tag_prefix}{i}"
+        stage.context[tag] = f"{tag}@0"
+        stage.outputs[tag] = f"{tag}@0"
+        rec = {"writer": i, "attempt": 0, "mode": mode, "read_version": v0, "seq_before": w.max_seq()}
+        try:
+            with store.transaction(w.queue) as txn:
+                txn.store_stage(stage)
+                raise _Fault()
+        except _Fault:
+            rec["outcome"] = "fault"
+        except ConcurrencyError as e:
+            rec["outcome"] = "conflict"
+            rec["err"] = str(e)[:80]
+        rec["version_after"] = stage.version
+        rec["in_txn_after"] = bool(store._get_connection().in_transaction)
+        hist.append(rec)
+        if rec["outcome"] != "fault":
+            return
+        rec2 = {"writer": i, "attempt": 1, "mode": mode, "read_version": v0, "seq_before": w.max_seq(), "same_object_retry": True}
+        try:
+            with store.transaction(w.queue) as txn:
+                txn.store_stage(stage)
+            rec2["outcome"] = "ok"
+        except ConcurrencyError as e:
+            rec2["outcome"] = "conflict"
+            rec2["err"] = str(e)[:80]
+        except Exception as e:
+            rec2["outcome"] = f"error:{type(e).__name__}:{e}"
+        rec2["version_after"] = stage.version
+        rec2["in_txn_after"] = bool(store._get_connection().in_transaction)
+        hist.append(rec2)
+
+    if mode == "txn_fault":
+        return fault_body
 
     def body() -> None:
         store = w.store
@@ -136,6 +183,10 @@ def api_oracle(w, sid: str, hist: list, v_init: int) -> tuple[list[dict], Counte
     for h in hist:
         if h["outcome"].startswith("error"):
             out.append(viol("C07/unexpected-error", h["outcome"][:200]))
+        if h["outcome"] == "fault":
+            obs["rolled_back_after_successful_store"] += 1
+            if h["version_after"] != h["read_version"]:
+                out.append(viol("C07/version-not-restored-after-rollback", f"in-memory version {h['version_after']} after the rolled-back transaction, row was read at {h['read_version']}: {h}"))
         if h["outcome"] == "conflict":
             obs["conflicts_raised"] += 1
             if h["mode"].startswith("txn") and h["version_after"] != h["read_version"]:
